@@ -46,7 +46,7 @@ def captured():
 VIA_READER = 0.12
 
 
-def live_tree(ctx, spec, rng=None, style='export'):
+def live_tree(ctx, spec, rng=None, style='export', via=None):
     """The live tree for a spec: built through the Tree API (child lists in
     random order) or - in about one case of eight - by the repository's own
     reader from a file that an independent encoder wrote, as in a real run.
@@ -55,7 +55,7 @@ def live_tree(ctx, spec, rng=None, style='export'):
     if rng is not None and ctx is not None and VIA_READER:
         import random as _random
         r = _random.Random(rng.random())    # own stream: callers' draws stay
-        if r.random() < VIA_READER:
+        if r.random() < (VIA_READER if via is None else via):
             live = _via_reader(ctx, spec, r)
             if live is not None:
                 ctx.stratum('live tree built by a reader')
@@ -86,7 +86,10 @@ def _via_reader(ctx, spec, r):
             return None
         live = got[0]
         defects, have = model.snapshot(live)
-        if defects or model.canon(have, 'wplme') != model.canon(want, 'wplme'):
+        # with gf_split the function comes from the label, not from the edge
+        # field of the file: edges are put back from the spec below
+        fields = 'wplm' if 'gf_split' in opts else 'wplme'
+        if defects or model.canon(have, fields) != model.canon(want, fields):
             return None
     except Exception:
         return None
@@ -97,6 +100,8 @@ def _via_reader(ctx, spec, r):
             node.data['head'] = m_spec.head
         for k, v in m_spec.attrs.items():
             node.data[k] = v
+        if 'gf_split' in opts and m_spec.parent is not None:
+            node.data['edge'] = m_spec.edge
         for a, b in zip(m_spec.kids(), m_live.kids()):
             copy_on(a, b)
     copy_on(want, have)
